@@ -719,7 +719,10 @@ class CallNode(Base):
     arg_results = relationship("ArgumentResult", back_populates="result_call_node")
 
     child_edges = relationship(
-        "CallEdge", primaryjoin=(call_hash == CallEdge.parent_id), back_populates="parent_node"
+        "CallEdge",
+        primaryjoin=(call_hash == CallEdge.parent_id),
+        back_populates="parent_node",
+        order_by="CallEdge.call_order",
     )
     parent_edges = relationship(
         "CallEdge", primaryjoin=(call_hash == CallEdge.child_id), back_populates="child_node"
